@@ -52,8 +52,9 @@ pub fn exec_c15(plan: &C15Plan, st: &mut Stats) -> Option<Violation> {
         b.new_reader();
         b.feed(&plan.pics[i].bytes);
         let ob = b.decode();
-        if let Outcome::Panic(p) = &ob {
-            return viol("panic", format!("picture {i} in its own reader: {p}"));
+        if let Outcome::Panic(_) = &ob {
+            st.inc("panic_not_judged_here"); // the picture crashes even in its own reader: C01's verdict
+            return None;
         }
         // A: deliver what the plan says (never less than picture i completely)
         let want = plan.delivered_before_call.get(i).copied().unwrap_or(concat.len()).clamp(ends[i], concat.len());
@@ -77,7 +78,8 @@ pub fn exec_c15(plan: &C15Plan, st: &mut Stats) -> Option<Violation> {
         }
         st.hs(&oa.class());
         if let Outcome::Panic(p) = &oa {
-            return viol("panic", format!("call {i} on the concatenated stream: {p}"));
+            // in its own reader the same picture decoded or failed cleanly: the stream call differs
+            return viol("stream call result differs from the per-picture reader", format!("call {i} on the concatenated stream panicked ({p}); in its own reader the picture gives {}", ob.short()));
         }
         let spec = plan.pics[i].spec.as_ref();
         let what = || {
@@ -136,7 +138,10 @@ pub fn exec_c15(plan: &C15Plan, st: &mut Stats) -> Option<Violation> {
         st.inc("evaluations");
         st.inc("fault.eof_for_now.fired");
         match &o {
-            Outcome::Panic(p) => return viol("panic", format!("call {} after the last picture: {p}", n + k)),
+            Outcome::Panic(_) => {
+                st.inc("panic_not_judged_here"); // a crash on an exhausted reader is C01's verdict
+                return None;
+            }
             Outcome::Ok => return viol("a call after the last picture succeeded", format!("call {} on an exhausted stream of {n} pictures returned Ok", n + k)),
             Outcome::Err(_) => {
                 // any error value is acceptable here (the statement only requires that
